@@ -14,6 +14,7 @@ import (
 	"sync"
 
 	"github.com/go-openapi/spec"
+	"github.com/go-openapi/strfmt"
 )
 
 const (
@@ -268,4 +269,10 @@ func VerifDefaultOpts() Opts {
 	defaultOptsMutex.Lock()
 	defer defaultOptsMutex.Unlock()
 	return defaultOpts
+}
+
+// VerifValidateItems judges a value with the unexported items validator, as the default / example validators do for
+// the items of simple parameters and headers (root is the *spec.Parameter or *spec.Header the items belong to).
+func VerifValidateItems(path, in string, items *spec.Items, root interface{}, formats strfmt.Registry, data interface{}) *Result {
+	return newItemsValidator(path, in, items, root, formats, nil).Validate(0, data)
 }
